@@ -292,9 +292,9 @@ func refEdits() []refEdit {
 	for _, p := range pns {
 		for i, s := range base.Pipelines[p] {
 			if s.Task != "" {
-				out = append(out, refEdit{Kind: "stage-task", Pipeline: p, Stage: i, Value: "nope"})  // broken
-				out = append(out, refEdit{Kind: "stage-task", Pipeline: p, Stage: i, Value: "t3"})    // repaired / other valid
-				if !s.Unnamed { // which of the two names an unnamed stage is not something the property defines
+				out = append(out, refEdit{Kind: "stage-task", Pipeline: p, Stage: i, Value: "nope"}) // broken
+				out = append(out, refEdit{Kind: "stage-task", Pipeline: p, Stage: i, Value: "t3"})   // repaired / other valid
+				if !s.Unnamed {                                                                      // which of the two names an unnamed stage is not something the property defines
 					out = append(out, refEdit{Kind: "both", Pipeline: p, Stage: i, Value: "pc"})
 				}
 			} else {
